@@ -11,6 +11,76 @@ import traceback
 from harness.lib.common import Check
 
 
+def _tree() -> tuple:
+    """(resident kB of this process and all its descendants, the descendants' pids)."""
+    kids: dict = {}
+    rss: dict = {}
+    for d in os.listdir("/proc"):
+        if not d.isdigit():
+            continue
+        try:
+            with open(f"/proc/{d}/status") as f:
+                st = f.read()
+        except OSError:
+            continue
+        ppid = vm = 0
+        for ln in st.splitlines():
+            if ln.startswith("PPid:"):
+                ppid = int(ln.split()[1])
+            elif ln.startswith("VmRSS:"):
+                vm = int(ln.split()[1])
+        kids.setdefault(ppid, []).append(int(d))
+        rss[int(d)] = vm
+    total, todo, desc = 0, [os.getpid()], []
+    while todo:
+        p = todo.pop()
+        total += rss.get(p, 0)
+        desc.extend(kids.get(p, []))
+        todo.extend(kids.get(p, []))
+    return total, desc
+
+
+def _watchdog(ctx: Check, level: str, max_s: float, max_rss_gb: float) -> None:
+    """A change to the library can make an operation loop or eat memory (a listing that follows symlink loops, ...).
+    The check must then REPORT, not hang: past the limits it records the fact as a broken obligation, writes the
+    verdict and evidence with what was explored so far, and exits."""
+    import signal
+    import threading
+    import time
+
+    def loop() -> None:
+        t0 = time.time()
+        while True:
+            time.sleep(3)
+            why = None
+            if time.time() - t0 > max_s:
+                why = f"check did not finish within {max_s:.0f} s"
+            else:
+                try:
+                    gb = _tree()[0] / 1e6
+                except Exception:       # noqa: BLE001
+                    gb = 0.0
+                if gb > max_rss_gb:
+                    why = f"check (with its children) grew to {gb:.1f} GB resident memory (limit {max_rss_gb:.0f} GB)"
+            if why:
+                ctx.proof_problems.append("resource limit: " + why + " -- a library operation loops or runs away under the harness's inputs; "
+                                          "the property is not shown on this tree")
+                try:
+                    code = ctx.finish(level)
+                finally:
+                    sys.stdout.flush()
+                    try:
+                        for child in _tree()[1]:
+                            try:
+                                os.kill(child, signal.SIGKILL)
+                            except OSError:
+                                pass
+                    except Exception:   # noqa: BLE001
+                        pass
+                    os._exit(code or 1)
+    threading.Thread(target=loop, name="check-watchdog", daemon=True).start()
+
+
 def main() -> int:
     import logging
     logging.disable(logging.ERROR)        # the library logs every injected failure; keep the check output readable
@@ -27,6 +97,9 @@ def main() -> int:
         with open(args.replay) as f:
             payload = json.load(f)
         return int(mod.replay(ctx, payload))
+    _watchdog(ctx, getattr(mod, "LEVEL", "proof"),
+              float(os.environ.get("DATASHARD_VERIF_MAX_S", "1800" if args.tier == "quick" else "10800")),
+              float(os.environ.get("DATASHARD_VERIF_MAX_RSS_GB", "24")))
     try:
         mod.run(ctx)
     except Exception:
